@@ -86,6 +86,16 @@ Theorem C41_file_ref_not_url : forall root p s, put false root p = Some s -> is_
 Proof. exact put_not_url. Qed.
 Print Assumptions C41_file_ref_not_url.
 
+(** PutMany: a batch is accepted only if every element is accepted by the
+    single-reference rule applied to it ALONE (no element's outcome depends on
+    its neighbours), so every reference a batch stores is confined. *)
+Theorem C41_batch_confined : forall root af au paths ss,
+  batch_put false af au root paths = Some ss ->
+  Forall2 (fun p s => put_ref false af au root p = PStored s) paths ss /\
+  Forall (fun s => confined root s = true) ss.
+Proof. exact batch_confined. Qed.
+Print Assumptions C41_batch_confined.
+
 (** Why the dispatcher matters: the URL-shaped reference "http://../../r/x" is
     accepted verbatim when AllowUrls is on; with AllowUrls off at read time the
     dispatcher answers "not enabled" — were it handed to the file reader,
